@@ -1,6 +1,7 @@
 import InfluxQL.Lemmas.Neutral
 import InfluxQL.Lemmas.Query
 import InfluxQL.Lemmas.PMonad
+import InfluxQL.Lemmas.RegexGap
 import InfluxQL.Model.ParserCore
 /-!
 # C16 — statement separation, whitespace and comments do not change meaning
@@ -361,6 +362,102 @@ theorem comment_before_regex_lookahead_same_tokens :
     sigTokens (Cursor.ofRunes ['f', '(', 'a', ',', ' ', ' ', 'b', ')']) =
       sigTokens (Cursor.ofRunes ['f', '(', 'a', ',', ' ', '/', '*', 'c', '*', '/', ' ', 'b', ')']) := by
   decide +kernel
+
+/-! ### The general statement: the look-ahead does not see the gap
+
+State level, because `parseRegex` is called in the middle of a parse: `s.r.chars` is the rune
+stream still ahead of the parser state `s`, `s.n` the number of pushed-back tokens (the
+look-ahead is only made with none, see the guard of `parseRegex`). A *gap* is `w g`: an optional
+whitespace run `w` followed by `g`, comments each followed by an optional whitespace run
+(`CommentRun`), every whitespace run maximal. `IsComment` is a terminated block comment or a
+line comment ending in a line feed — exactly what `comment_insert_tokens` inserts. -/
+
+/-- Two outcomes of a parsing function that agree up to positions: both succeed with the same
+result and states that agree up to positions (`SEq 0`: same push-back count, same parameters,
+same runes ahead, the tokens that can be re-delivered of the same kind and literal), or both fail
+with the same error up to the position it reports (`Fail.erase`). -/
+def SameUpToPos {α : Type} (x y : Except Fail (α × PState)) : Prop :=
+  match x, y with
+  | .ok (a1, t1), .ok (a2, t2) => a1 = a2 ∧ SEq 0 t1 t2
+  | .error e1, .error e2 => e1.erase = e2.erase
+  | _, _ => False
+
+theorem sameUpToPos_of_wpE {α : Type} {m1 m2 : P α} {s1 s2 : PState}
+    (h : wpE m1 m2 s1 s2 (fun a b t1 t2 => a = b ∧ SEq 0 t1 t2)) :
+    SameUpToPos (m1.run s1) (m2.run s2) := by
+  unfold wpE at h
+  unfold SameUpToPos
+  cases h1 : m1.run s1 with
+  | error e1 =>
+    cases h2 : m2.run s2 with
+    | error e2 => rw [h1, h2] at h; exact h
+    | ok q => rw [h1, h2] at h; exact h.elim
+  | ok q1 =>
+    obtain ⟨a1, t1⟩ := q1
+    cases h2 : m2.run s2 with
+    | error e2 => rw [h1, h2] at h; exact h.elim
+    | ok q2 => obtain ⟨a2, t2⟩ := q2; rw [h1, h2] at h; exact h
+
+/-- **C16 (look-ahead, exact).** In front of `w g post`, with nothing pushed back, `parseRegex`
+consumes exactly the gap `w g` — plus one `eof` rune (NUL) if `post` begins with one — and then
+behaves exactly (result, error, positions, final state) as `parseRegexSkip` started there:
+`parseRegexSkip` is the rest of `parseRegex`, the comment loop followed by the look at the next
+rune. In particular the loop's fuel never runs out on the way, and no comment of the gap is ever
+handed to `ScanRegex`. -/
+theorem parseRegex_skips_gap (s : PState) (hn : s.n = 0) (hgood : Good s) (w g post : List Char)
+    (hc : s.r.chars = w ++ (g ++ post)) (hw : WsOpt w) (hmax : NotWsHead (g ++ post))
+    (hg : CommentRun post g) :
+    ∃ s', s'.n = 0 ∧ s'.params = s.params ∧ s'.r.chars = dropEof post ∧
+      parseRegex.run s = parseRegexSkip.run s' := by
+  obtain ⟨s', hat, e⟩ := InfluxQL.parseRegex_skips_gap s hn hgood w g post hc hw hmax hg
+  exact ⟨s', hat.n0, hat.params, hat.chars, e⟩
+
+/-- **C16 (look-ahead, neutrality).** The outcome of `parseRegex` does not depend on the gap in
+front of it. Two parser states with nothing pushed back and the same parameters, one in front of
+`w1 g1 post`, the other in front of `w2 g2 post`: either both calls return the same result — the
+same regex literal, or both "no regex here" — and leave states that agree up to positions
+(`SEq 0`: same push-back count, same runes ahead, the tokens that can be re-delivered of the same
+kind and literal), or both fail with the same error up to the position it reports
+(`Fail.erase`). With `g1 = []` this is "a comment is treated the same as whitespace" at every
+look-ahead point of the parser: after `(` and `,` of a call, after `=~` / `!~`, and (statement
+level) after `,` in field, source and dimension lists, after FROM and GROUP BY. -/
+theorem parseRegex_gap_neutral (s1 s2 : PState) (hn1 : s1.n = 0) (hn2 : s2.n = 0) (hg1 : Good s1)
+    (hg2 : Good s2) (hpar : s1.params = s2.params) (hlow : s1.lowerTbl = s2.lowerTbl)
+    (w1 g1 w2 g2 post : List Char)
+    (hc1 : s1.r.chars = w1 ++ (g1 ++ post)) (hc2 : s2.r.chars = w2 ++ (g2 ++ post))
+    (hw1 : WsOpt w1) (hw2 : WsOpt w2) (hm1 : NotWsHead (g1 ++ post)) (hm2 : NotWsHead (g2 ++ post))
+    (hr1 : CommentRun post g1) (hr2 : CommentRun post g2) :
+    SameUpToPos (parseRegex.run s1) (parseRegex.run s2) :=
+  sameUpToPos_of_wpE (InfluxQL.parseRegex_gap_neutral s1 s2 hn1 hn2 hg1 hg2 hpar hlow w1 g1 w2 g2 post
+    hc1 hc2 hw1 hw2 hm1 hm2 hr1 hr2)
+
+/-- The shape of `comment_insert_tokens`: whitespace `w` against `wa comment wb`, where now the
+flanking whitespace may be empty (`f(a,/*c*/b)`), and `w` too. -/
+theorem parseRegex_comment_as_whitespace (s1 s2 : PState) (hn1 : s1.n = 0) (hn2 : s2.n = 0)
+    (hg1 : Good s1) (hg2 : Good s2) (hpar : s1.params = s2.params) (hlow : s1.lowerTbl = s2.lowerTbl)
+    (w wa cm wb post : List Char)
+    (hc1 : s1.r.chars = w ++ post) (hc2 : s2.r.chars = wa ++ (cm ++ (wb ++ post)))
+    (hw : WsOpt w) (hwa : WsOpt wa) (hwb : WsOpt wb) (hc : IsComment cm) (hpost : NotWsHead post) :
+    SameUpToPos (parseRegex.run s1) (parseRegex.run s2) := by
+  have hr2 : CommentRun post (cm ++ (wb ++ [])) := CommentRun.cons hc hwb (by simpa using hpost) CommentRun.nil
+  exact sameUpToPos_of_wpE (InfluxQL.parseRegex_gap_neutral s1 s2 hn1 hn2 hg1 hg2 hpar hlow w [] wa
+    (cm ++ (wb ++ [])) post (by simpa using hc1) (by simpa using hc2) hw hwa (by simpa using hpost)
+    (by rw [List.append_assoc]; exact notWsHead_comment cm _ hc) CommentRun.nil hr2)
+
+/-- Position erasure for everything `parseRegex` does behind the gap: two states that agree up
+to positions give outcomes that agree up to positions. -/
+theorem parseRegexSkip_depends_on_runes_only (s1 s2 : PState) (h : SEq 0 s1 s2) :
+    SameUpToPos (parseRegexSkip.run s1) (parseRegexSkip.run s2) :=
+  sameUpToPos_of_wpE (parseRegexSkip_erase h)
+
+-- non-vacuity: ` ` against `/*c*/ --d⏎⇥` in front of `b)`
+example : CommentRun ['b', ')'] (['/', '*', 'c', '*', '/'] ++ ([' '] ++ (['-', '-', 'd', '\n'] ++ (['\t'] ++ [])))) :=
+  CommentRun.cons (IsComment.block ['c'] (by decide)) (Or.inr ⟨by decide, by decide⟩)
+    (by intro c x h; simp at h; rw [← h.1]; decide)
+    (CommentRun.cons (IsComment.line ['d'] (by decide)) (Or.inr ⟨by decide, by decide⟩)
+      (by intro c x h; simp at h; rw [← h.1]; decide) CommentRun.nil)
+example : (PState.init [' ', 'b', ')'] [] []).r.chars = [' '] ++ ([] ++ ['b', ')', eofRune]) := by decide
+example : Good (PState.init [' ', 'b', ')'] [] []) := ⟨Nat.le_refl _, by decide⟩
 
 /-! ## Negative examples: where the side conditions bite (kernel-checked) -/
 
